@@ -1,6 +1,7 @@
 (* C03 — the operations of [step3], one lemma per operation and receiver kind. *)
 From Coq Require Import ZArith List Bool Lia.
-From ADV Require Import C11.Model C11.Spec C11.ProofsMap C11.ProofsRef C03.Model C03.Spec C03.ProofsDense.
+From ADV Require Import C11.Model C11.Spec C11.ProofsMap C11.ProofsRef C03.Model C03.Spec C03.ProofsDense
+                        C03.ProofsSem C03.ProofsJoint.
 Import ListNotations.
 Open Scope Z_scope.
 
@@ -76,3 +77,168 @@ Lemma step_dense_equals y w k b e2 :
   vdim w b = zlen (getd w k) ->
   step3 y w (VEquals (RD k) b e2) = (w, (K_OK, [b2z (all_close e2 (getd w k) (abs3 w b))])).
 Proof. intro H. cbn [step3]. rewrite dense_equals; auto. Qed.
+
+(* ----------------------------------------------------------- sparse receiver *)
+(* the state a sparse receiver t of the world w3 meets, and its operands *)
+Definition Good3 (w : w3) (t : nat) : Prop := Good (sw w) t.
+Definition operand3 (w : w3) (t : nat) (x : vref) : Prop :=
+  match x with
+  | RS u => u <> t /\ has (sw w) u /\ dim (getv (sw w) u) = dim (getv (sw w) t)
+  | RD k => zlen (getd w k) = dim (getv (sw w) t)
+  end.
+Lemma operand3_ok w t x : operand3 w t x -> operand_ok3 (sw w) t (to_op w x).
+Proof. destruct x; simpl; auto. Qed.
+Lemma oabs_to_op w x : oabs (sw w) (to_op w x) = abs3 w x.
+Proof. destruct x; simpl; auto. Qed.
+(* everything but the receiver keeps its value *)
+Definition same_but_s (w w' : w3) (t : nat) : Prop :=
+  dn w' = dn w /\ length (vecs (sw w')) = length (vecs (sw w)) /\
+  forall u, u <> t -> sabs (sw w') u = sabs (sw w) u.
+
+Lemma step_sparse_vopv y f w t a b :
+  Good3 w t -> operand3 w t a -> operand3 w t b ->
+  let r := step3 y w (VopV f (RS t) a b) in
+  ok_out r /\ same_but_s w (fst r) t /\ G t (sw (fst r)) /\
+  abs3 (fst r) (RS t) = map2 (bop_f f) (abs3 w a) (abs3 w b).
+Proof.
+  intros HG Ha Hb. cbn [step3].
+  destruct (vop3_correct t (bop_f f)) with (w := sw w) (o2 := to_op w a) (o3 := to_op w b)
+    as (w' & E & G' & L & R & F & D).
+  - destruct f; reflexivity.
+  - apply Good_G. exact HG.
+  - apply operand3_ok. auto.
+  - apply operand3_ok. auto.
+  - rewrite E. unfold lift, ok_out, same_but_s. simpl. rewrite R, !oabs_to_op. auto.
+Qed.
+
+Lemma step_sparse_unary (f : Z -> Z) w t a r :
+  f 0 = 0 -> Good3 w t -> operand3 w t a ->
+  r = lift w (vop2 f (sw w) t (to_op w a)) ->
+  ok_out r /\ same_but_s w (fst r) t /\ G t (sw (fst r)) /\
+  abs3 (fst r) (RS t) = map f (abs3 w a).
+Proof.
+  intros f0 HG Ha ->.
+  destruct (vop2_correct t f (sw w) (to_op w a) f0 (Good_G _ _ HG) (operand3_ok _ _ _ Ha))
+    as (w' & E & G' & L & R & F & D).
+  rewrite E. unfold lift, ok_out, same_but_s. simpl. rewrite R, !oabs_to_op. auto.
+Qed.
+
+Lemma step_sparse_vmuls y w t a c :
+  Good3 w t -> operand3 w t a ->
+  let r := step3 y w (VmulS (RS t) a c) in
+  ok_out r /\ same_but_s w (fst r) t /\ G t (sw (fst r)) /\
+  abs3 (fst r) (RS t) = map (fun x => x * c) (abs3 w a).
+Proof. intros HG Ha. apply step_sparse_unary; auto. Qed.
+
+Lemma step_sparse_vdivs y w t a c :
+  Good3 w t -> operand3 w t a -> c <> 0 ->
+  let r := step3 y w (VdivS (RS t) a c) in
+  ok_out r /\ same_but_s w (fst r) t /\ G t (sw (fst r)) /\
+  abs3 (fst r) (RS t) = map (fun x => Z.quot x c) (abs3 w a).
+Proof.
+  intros HG Ha Hc. apply step_sparse_unary; auto.
+  cbn [step3]. unfold vdivs. destruct (c =? 0) eqn:E; auto. apply Z.eqb_eq in E. contradiction.
+Qed.
+
+Lemma step_sparse_vset y w t a :
+  Good3 w t -> operand3 w t a ->
+  let r := step3 y w (VSet (RS t) a) in
+  ok_out r /\ same_but_s w (fst r) t /\ G t (sw (fst r)) /\
+  abs3 (fst r) (RS t) = abs3 w a.
+Proof.
+  intros HG Ha.
+  destruct (step_sparse_unary (fun x => x) w t a (step3 y w (VSet (RS t) a)) eq_refl HG Ha) as (A & B & C & D).
+  - cbn [step3]. unfold vset. destruct a as [u|k]; simpl; auto.
+    destruct Ha as (N & _). destruct (Nat.eqb t u) eqn:E; auto. apply Nat.eqb_eq in E. congruence.
+  - rewrite map_id in D. auto.
+Qed.
+
+Lemma step_sparse_equals y w t b e2 :
+  0 < e2 -> Good3 w t -> operand3 w t b ->
+  exists w', step3 y w (VEquals (RS t) b e2) =
+               (w', (K_OK, [b2z (all_close e2 (abs3 w (RS t)) (abs3 w b))])) /\
+             Qw (sw w) (sw w') /\ dn w' = dn w /\ G t (sw w').
+Proof.
+  intros He HG Hb. cbn [step3].
+  destruct (vequals_correct t e2 (sw w) (to_op w b) He (Good_G _ _ HG) (operand3_ok _ _ _ Hb)) as (s' & E & HQ & G').
+  rewrite E. exists (sets w s'). rewrite oabs_to_op. simpl. auto.
+Qed.
+
+(* known finding C03-EQEPS0: with epsilon = 0 the answer depends on the storage *)
+Lemma equals_eps0_refuted_lemma :
+  let w := run3 TFloat init3 [NewS [] [] 1; NewD [0]] in
+  abs3 w (RS 0) = abs3 w (RD 0) /\
+  snd (step3 TFloat w (VEquals (RS 0) (RS 0) 0)) = (K_OK, [1]) /\
+  snd (step3 TFloat w (VEquals (RD 0) (RD 0) 0)) = (K_OK, [0]) /\
+  snd (step3 TFloat w (VEquals (RS 0) (RD 0) 0)) = (K_OK, [0]) /\
+  snd (step3 TFloat w (VEquals (RD 0) (RS 0) 0)) = (K_OK, [0]).
+Proof. vm_compute. repeat split; reflexivity. Qed.
+
+Lemma step_sparse_vadds y w t a c :
+  Good3 w t -> operand3 w t a ->
+  let r := step3 y w (VaddS (RS t) a c) in
+  ok_out r /\ same_but_s w (fst r) t /\ G t (sw (fst r)) /\
+  abs3 (fst r) (RS t) = map (fun x => x + c) (abs3 w a).
+Proof.
+  intros HG Ha. cbn [step3].
+  destruct (vopS_correct t (fun w1 i => Some (ord w1 (to_op w a) i + c)) (fun x => x + c) (sw w) (to_op w a))
+    as (w' & E & G' & L & R & F & D).
+  - apply Good_G. exact HG.
+  - apply operand3_ok. auto.
+  - intros w1 k H. rewrite H. auto.
+  - rewrite E. unfold lift2, ok_out, same_but_s. simpl. rewrite R, !oabs_to_op. auto.
+Qed.
+Lemma step_sparse_vsubs y w t a c :
+  Good3 w t -> operand3 w t a ->
+  let r := step3 y w (VsubS (RS t) a c) in
+  ok_out r /\ same_but_s w (fst r) t /\ G t (sw (fst r)) /\
+  abs3 (fst r) (RS t) = map (fun x => x - c) (abs3 w a).
+Proof.
+  intros HG Ha. cbn [step3].
+  destruct (vopS_correct t (fun w1 i => Some (ord w1 (to_op w a) i - c)) (fun x => x - c) (sw w) (to_op w a))
+    as (w' & E & G' & L & R & F & D).
+  - apply Good_G. exact HG.
+  - apply operand3_ok. auto.
+  - intros w1 k H. rewrite H. auto.
+  - rewrite E. unfold lift2, ok_out, same_but_s. simpl. rewrite R, !oabs_to_op. auto.
+Qed.
+Lemma step_sparse_vdivv y w t a b :
+  Good3 w t -> operand3 w t a -> operand3 w t b -> nonzero_all (abs3 w b) ->
+  let r := step3 y w (VdivV (RS t) a b) in
+  ok_out r /\ same_but_s w (fst r) t /\ G t (sw (fst r)) /\
+  abs3 (fst r) (RS t) = map2 Z.quot (abs3 w a) (abs3 w b).
+Proof.
+  intros HG Ha Hb Hnz. cbn [step3].
+  destruct (vdivv_correct t y (sw w) (to_op w a) (to_op w b)) as (w' & E & G' & L & R & F & D).
+  - apply Good_G. exact HG.
+  - apply operand3_ok. auto.
+  - apply operand3_ok. auto.
+  - rewrite oabs_to_op. auto.
+  - rewrite E. unfold lift2, ok_out, same_but_s. simpl. rewrite R, !oabs_to_op. auto.
+Qed.
+
+(* the property itself for the element-wise operations *)
+Lemma storage_independence_lemma y f w k t a b a' b' :
+  hasd w k -> vdim w a = zlen (getd w k) -> vdim w b = zlen (getd w k) ->
+  Good3 w t -> operand3 w t a' -> operand3 w t b' ->
+  abs3 w a = abs3 w a' -> abs3 w b = abs3 w b' ->
+  abs3 (fst (step3 y w (VopV f (RD k) a b))) (RD k) =
+  abs3 (fst (step3 y w (VopV f (RS t) a' b'))) (RS t).
+Proof.
+  intros H1 H2 H3 H4 H5 H6 E1 E2.
+  destruct (step_dense_vopv y f w k a b H1 H2 H3) as (_ & _ & X).
+  destruct (step_sparse_vopv y f w t a' b' H4 H5 H6) as (_ & _ & _ & Y).
+  rewrite X, Y, E1, E2. reflexivity.
+Qed.
+Lemma storage_independence_div_lemma y w k t a b a' b' :
+  hasd w k -> vdim w a = zlen (getd w k) -> vdim w b = zlen (getd w k) ->
+  Good3 w t -> operand3 w t a' -> operand3 w t b' ->
+  abs3 w a = abs3 w a' -> abs3 w b = abs3 w b' -> nonzero_all (abs3 w b) ->
+  abs3 (fst (step3 y w (VdivV (RD k) a b))) (RD k) =
+  abs3 (fst (step3 y w (VdivV (RS t) a' b'))) (RS t).
+Proof.
+  intros H1 H2 H3 H4 H5 H6 E1 E2 Hnz.
+  destruct (step_dense_vdivv y w k a b H1 H2 H3 Hnz) as (_ & _ & X).
+  destruct (step_sparse_vdivv y w t a' b' H4 H5 H6) as (_ & _ & _ & Y); [rewrite <- E2; auto|].
+  rewrite X, Y, E1, E2. reflexivity.
+Qed.
